@@ -18,7 +18,8 @@ RULE = ("Through the real receive path of both registries: every message type by
         "payload lengths 0..40 (random payload), every 0xC0 sub-type 0..255 with random "
         "(normal, repeat, count) consistent with the length, every 0x1F sub-id 0xFF00..0xFFFF "
         "plus random ids, strides known..known+6, and streams built from valid frames with "
-        "k bit flips and recomputed CRC, truncations at every offset, random bytes and frames "
+        "k bit flips and recomputed CRC, every known frame kind re-framed (valid CRC) with its body "
+        "cut to each length 0..n-1 or extended by 1..6 bytes, truncations at every offset, random bytes and frames "
         "of the other generation. Oracle: deliveries == reference reading of the reference-good "
         "frames in order (UNDEC skipped), unknown ids delivered as UnsupportedMessage with the "
         "payload unchanged and no reset, no unhandled exception anywhere, recovery probe "
@@ -29,7 +30,8 @@ ASSUMPTIONS = ["reference framing decides which byte ranges are frames; a frame 
                "AT5 byte stuffing (00 after three 0x55) is not implemented by the repo by its own "
                "documentation; generated payloads avoid 55 55 55 runs only where stated"]
 REQUIRED_OBS = ["unknown_type_delivered", "unknown_c0_sub_delivered", "unknown_ext_delivered",
-                "compared_with_reference", "malformed_reset_recovered", "long_stride_decoded"]
+                "compared_with_reference", "malformed_reset_recovered", "long_stride_decoded",
+                "reframed_bodies"]
 BUDGET = {"quick": 100, "thorough": 1500}
 
 REGISTERED = {4: {0x1F, 0x2A, 0x2B, 0x2C, 0x2D, 0x36, 0x37}, 5: {0x1F, 0xC0}}
@@ -54,6 +56,11 @@ def cases(tier, seed):
     for s0 in range(0, 256, 32):
         yield {"k": "c0", "gen": 5, "subs": list(range(s0, s0 + 32)),
                "seed": rnd.randrange(1 << 30), "reps": 2 if tier == "quick" else 12}
+    # CRC-valid frames of every known kind whose body is shorter / longer than its layout:
+    # each body length 0..len-1 (and +1..+6 noise bytes), header length and CRC recomputed
+    for gen in (4, 5):
+        for name in sorted(F.catalogue(gen)):
+            yield {"k": "reframed", "gen": gen, "kind": name, "seed": rnd.randrange(1 << 30)}
     yield {"k": "stride", "seed": rnd.randrange(1 << 30), "n": 60 if tier == "quick" else 600}
     n = 150 if tier == "quick" else 60000
     for i in range(n):
@@ -312,6 +319,17 @@ def run_case(case):
             judge_stream(5, fr, viol, obs, f"stride {st} sub {sub:#x}", must_deliver=True)
             n += 1
         sample = {"strides": "known+1..known+6", "n": case["n"]}
+    elif k == "reframed":
+        gen = case["gen"]
+        f = R.parse_stream(gen, F.catalogue(gen)[case["kind"]])[0][0]
+        body = bytes(f.data)
+        for ln in list(range(len(body))) + [len(body) + x for x in range(1, 7)]:
+            data = body[:ln] + _noise(rnd, max(0, ln - len(body)))
+            fr = R.frame(gen, f.to, f.frm, rnd.randrange(256), f.typ, data)
+            judge_stream(gen, fr, viol, obs, f"{case['kind']} body {ln}/{len(body)} bytes")
+            obs["reframed_bodies"] = obs.get("reframed_bodies", 0) + 1
+            n += 1
+        sample = {"gen": gen, "kind": case["kind"], "body_len": len(body)}
     elif k == "trunc_at":
         gen = case["gen"]
         raw = F.catalogue(gen)[case["kind"]]
